@@ -304,3 +304,139 @@ example : serverConfig { ipOk := fun _ => true, pathExists := fun _ => true }
     ([[112]] ++ (SGroup.single false).tokens ++ (SGroup.port true [56]).tokens) := by decide
 
 end Tftp
+
+namespace Tftp
+
+/-! ## the client's flag set -/
+
+inductive CGroup where
+  | ip (long : Bool) (v : Bytes)
+  | port (long : Bool) (v : Bytes)
+  | blk (long : Bool) (v : Bytes)
+  | win (long : Bool) (v : Bytes)
+  | tmo (long : Bool) (v : Bytes)
+  | rd (long : Bool) (v : Bytes)
+  | up (long : Bool)
+  | down (long : Bool)
+  | keep
+  | file (a : Bytes)      -- a positional argument: anything that is not a flag
+deriving Repr, DecidableEq
+
+def clientFlags : List Bytes := fI ++ fP ++ fB ++ fW ++ fT ++ fRD ++ fU ++ fDl ++ fKeep ++ fH
+
+def CGroup.tokens : CGroup → List Bytes
+  | .ip l v => [pick fI l, v]
+  | .port l v => [pick fP l, v]
+  | .blk l v => [pick fB l, v]
+  | .win l v => [pick fW l, v]
+  | .tmo l v => [pick fT l, v]
+  | .rd l v => [pick fRD l, v]
+  | .up l => [pick fU l]
+  | .down l => [pick fDl l]
+  | .keep => [pick fKeep false]
+  | .file a => [a]
+
+def CGroup.valid (o : Oracles) : CGroup → Bool
+  | .ip _ v => o.ipOk v
+  | .port _ v => (parseUnsigned 65536 v).isSome
+  | .blk _ v => (parseUnsigned Gen.usizeBound v).isSome
+  | .win _ v => (parseUnsigned 65536 v).isSome
+  | .tmo _ v => (parseUnsigned Gen.usizeBound v).isSome
+  | .rd _ v => o.pathExists v
+  | .file a => !clientFlags.contains a
+  | _ => true
+
+def CGroup.apply (g : CGroup) (c : CCfg) : CCfg :=
+  match g with
+  | .ip _ v => { c with ip := some v }
+  | .port _ v => { c with port := (parseUnsigned 65536 v).getD c.port }
+  | .blk _ v => { c with blocksize := (parseUnsigned Gen.usizeBound v).getD c.blocksize }
+  | .win _ v => { c with windowsize := (parseUnsigned 65536 v).getD c.windowsize }
+  | .tmo _ v => { c with timeoutS := (parseUnsigned Gen.usizeBound v).getD c.timeoutS }
+  | .rd _ v => { c with recvDir := v }
+  | .up _ => { c with upload := true }
+  | .down _ => { c with upload := false }
+  | .keep => { c with cleanOnError := false }
+  | .file a => { c with filePath := convertFilePath a }
+
+theorem parse_cgroup (o : Oracles) (g : CGroup) (rest : List Bytes) (c : CCfg) (hvalid : g.valid o = true) :
+    parseClientArgs o (g.tokens ++ rest) c = parseClientArgs o rest (g.apply c) := by
+  cases g with
+  | ip l v =>
+    simp only [CGroup.valid] at hvalid
+    cases l <;> simp only [CGroup.tokens, pick] <;> rw [parseClientArgs.eq_def] <;>
+      simp [CGroup.apply, fI, hvalid]
+  | port l v =>
+    simp only [CGroup.valid] at hvalid
+    cases l <;> simp only [CGroup.tokens, pick] <;> rw [parseClientArgs.eq_def] <;>
+      simp [CGroup.apply, fI, fP] <;> (split <;> simp_all)
+  | blk l v =>
+    simp only [CGroup.valid] at hvalid
+    cases l <;> simp only [CGroup.tokens, pick] <;> rw [parseClientArgs.eq_def] <;>
+      simp [CGroup.apply, fI, fP, fB] <;> (split <;> simp_all)
+  | win l v =>
+    simp only [CGroup.valid] at hvalid
+    cases l <;> simp only [CGroup.tokens, pick] <;> rw [parseClientArgs.eq_def] <;>
+      simp [CGroup.apply, fI, fP, fB, fW] <;> (split <;> simp_all)
+  | tmo l v =>
+    simp only [CGroup.valid] at hvalid
+    cases l <;> simp only [CGroup.tokens, pick] <;> rw [parseClientArgs.eq_def] <;>
+      simp [CGroup.apply, fI, fP, fB, fW, fT] <;> (split <;> simp_all)
+  | rd l v =>
+    simp only [CGroup.valid] at hvalid
+    cases l <;> simp only [CGroup.tokens, pick] <;> rw [parseClientArgs.eq_def] <;>
+      simp [CGroup.apply, fI, fP, fB, fW, fT, fRD, hvalid]
+  | up l =>
+    cases l <;> simp only [CGroup.tokens, pick] <;> rw [parseClientArgs.eq_def] <;>
+      simp [CGroup.apply, fI, fP, fB, fW, fT, fRD, fU]
+  | down l =>
+    cases l <;> simp only [CGroup.tokens, pick] <;> rw [parseClientArgs.eq_def] <;>
+      simp [CGroup.apply, fI, fP, fB, fW, fT, fRD, fU, fDl]
+  | keep =>
+    simp only [CGroup.tokens, pick]
+    rw [parseClientArgs.eq_def]
+    simp [CGroup.apply, fI, fP, fB, fW, fT, fRD, fU, fDl, fKeep]
+  | file a =>
+    simp only [CGroup.valid] at hvalid
+    have hn : a ∉ clientFlags := by
+      intro hm
+      have : clientFlags.contains a = true := by simpa using hm
+      simp at hvalid
+      exact hvalid hm
+    simp only [clientFlags, List.mem_append, not_or] at hn
+    obtain ⟨⟨⟨⟨⟨⟨⟨⟨⟨h1, h2⟩, h3⟩, h4⟩, h5⟩, h6⟩, h7⟩, h8⟩, h9⟩, h10⟩ := hn
+    simp only [CGroup.tokens, List.cons_append, List.nil_append]
+    rw [parseClientArgs.eq_def]
+    simp [h1, h2, h3, h4, h5, h6, h7, h8, h9, h10, CGroup.apply]
+
+/-- **client: a vector of valid groups** (flags with acceptable values, positional file names that are
+not flags), in any order and with any repetitions, yields the configuration obtained by applying the groups
+one after the other — so `-u`/`-d` and the file name are last-wins exactly like the value flags -/
+theorem c17_client_groups_parse (o : Oracles) (gs : List CGroup) (c : CCfg) (h : ∀ g ∈ gs, g.valid o = true) :
+    parseClientArgs o (gs.flatMap CGroup.tokens) c = .ok (gs.foldl (fun c g => g.apply c) c) := by
+  induction gs generalizing c with
+  | nil => simp [parseClientArgs]
+  | cons g gs ih =>
+    simp only [List.flatMap_cons, List.foldl_cons]
+    rw [parse_cgroup o g _ c (h g (by simp))]
+    exact ih _ (fun x hx => h x (by simp [hx]))
+
+/-- client: the last of `-u` / `-d` decides the mode, the last positional argument is the file -/
+theorem c17_client_mode_and_file_last_wins (o : Oracles) (gs : List CGroup) (c : CCfg) (g : CGroup)
+    (h : ∀ x ∈ gs ++ [g], x.valid o = true) :
+    ∃ c', parseClientArgs o ((gs ++ [g]).flatMap CGroup.tokens) c = .ok c' ∧
+      (∀ l, g = .up l → c'.upload = true) ∧ (∀ l, g = .down l → c'.upload = false) ∧
+      (∀ a, g = .file a → c'.filePath = convertFilePath a) := by
+  have hp := c17_client_groups_parse o (gs ++ [g]) c h
+  simp only [List.foldl_append, List.foldl_cons, List.foldl_nil] at hp
+  refine ⟨_, hp, ?_, ?_, ?_⟩ <;> intro x hx <;> subst hx <;> rfl
+
+/-- client defaults: 127.0.0.1 (`ip = none`), port 69, blksize 512, windowsize 1, timeout 5 s, download,
+clean-on-error -/
+theorem c17_client_defaults (o : Oracles) :
+    clientConfig o [] = .ok CCfg.default ∧ CCfg.default.port = 69 ∧ CCfg.default.blocksize = 512 ∧
+    CCfg.default.windowsize = 1 ∧ CCfg.default.timeoutS = 5 ∧ CCfg.default.upload = false ∧
+    CCfg.default.cleanOnError = true := by
+  refine ⟨by simp [clientConfig, parseClientArgs], ?_, ?_, ?_, ?_, rfl, rfl⟩ <;> decide
+
+end Tftp
